@@ -458,6 +458,9 @@ class Scrollable(WidgetDecoration[WrappedWidget]):
 
 class ScrollBar(WidgetDecoration[WrappedWidget]):
     Symbols = ScrollbarSymbols
+    # the bar depends on rows the wrapped widget's canvas does not depend on, and keypress / mouse_event rely on the
+    # size recorded by the rendering on screen: render() has to run for every frame
+    no_cache: typing.ClassVar[list[str]] = ["render"]
 
     def sizing(self) -> frozenset[Sizing]:
         return frozenset((Sizing.BOX,))
